@@ -76,17 +76,61 @@ TRANSLATORS = {
 }
 
 
+FALLBACK = os.path.join(COQ, "gen_fallback")   # committed: the translators' output for the pinned tree
+REFUSED = {}                                    # gen file -> message, from the latest run of its translator
+
+
 def regenerate(names):
-    """run the translators for the given gen files; returns list of (name, message) refusals"""
+    """run the translators for the given gen files; returns list of (name, message) refusals.
+    A refused file is replaced by its committed fallback so that models which do NOT depend on it still build; every
+    check that does depend on it reports the refusal as a broken tie (callers of regenerate, and Check.props through
+    the props file's dependencies), so the fallback never stands in for the source where it matters."""
     refusals = []
     for n in names:
         script, srcs = TRANSLATORS[n]
         rc, out = sh([sys.executable, os.path.join(VERIF, script)] + [os.path.join(REPO, s) for s in srcs])
         if rc != 0:
             refusals.append((n, out.strip()))
+            REFUSED[n] = out.strip()
+            fb = os.path.join(FALLBACK, n)
+            if os.path.exists(fb):
+                write_if_changed(os.path.join(GEN, n), open(fb, encoding="utf-8").read())
             continue
+        REFUSED.pop(n, None)
         write_if_changed(os.path.join(GEN, n), out)
     return refusals
+
+
+def regenerate_all():
+    """every generated file is brought up to date with /repo before anything is built: a file left over from an
+    earlier run against a different tree must never be used"""
+    with Lock("gen"):
+        return regenerate(list(TRANSLATORS))
+
+
+def gen_deps(prop_file):
+    """the regenerated files a props file depends on (transitively), from coqdep"""
+    rc, out = sh(["coqdep", "-Q", "theories", "VL", "-Q", "props", "VLP", "-Q", "gen", "VLG"] +
+                 [os.path.join("props", prop_file)] +
+                 [os.path.join("theories", f) for f in sorted(os.listdir(os.path.join(COQ, "theories"))) if f.endswith(".v")] +
+                 [os.path.join("gen", f) for f in sorted(os.listdir(GEN)) if f.endswith(".v")], cwd=COQ)
+    deps = {}
+    for line in out.splitlines():
+        if ":" not in line:
+            continue
+        lhs, rhs = line.split(":", 1)
+        tgt = [t for t in lhs.split() if t.endswith(".vo")]
+        if not tgt:
+            continue
+        deps[tgt[0]] = [d for d in rhs.split() if d.endswith(".vo")]
+    seen, todo = set(), [os.path.join("props", prop_file) + "o"]
+    while todo:
+        t = todo.pop()
+        if t in seen:
+            continue
+        seen.add(t)
+        todo += deps.get(t, [])
+    return sorted(os.path.basename(t)[:-1] for t in seen if t.startswith("gen/"))
 
 
 # --------------------------------------------------------------------------
@@ -158,6 +202,7 @@ def build_driver():
     """extract the models and (re)build the OCaml driver if any input changed"""
     ml = os.path.join(BUILD, "ml")
     os.makedirs(ml, exist_ok=True)
+    regenerate_all()
     with Lock("driver"):
         ext = open(os.path.join(COQ, "extract", "Extract.v"), encoding="utf-8").read()
         targets = []
@@ -360,6 +405,12 @@ class Check:
         bad = grep_gate()
         if bad:
             self.proof_broken.append("forbidden construct: " + "; ".join(bad[:5]))
+        regenerate_all()
+        for g in gen_deps(prop_file):
+            if g in REFUSED:
+                msg = "translator refused %s: %s" % (g, REFUSED[g])
+                if msg not in self.tie_broken:
+                    self.tie_broken.append(msg)
         r = coq_props(prop_file)
         self.checker_cmd = "make props/%so && coqc props/%s (cwd=/verif/coq; Print Assumptions captured)" % (prop_file, prop_file)
         if not r["ok"]:
@@ -372,6 +423,20 @@ class Check:
                 self.proof_broken.append("theorem %s depends on axioms not in the allow-list: %s" % (n, ax))
         if r["ok"] and not r["theorems"]:
             self.proof_broken.append("props/%s states no theorem" % prop_file)
+        if r["ok"] and self.tier == "thorough":
+            # independent re-check of the compiled property library and everything it depends on
+            lib = "VLP." + prop_file[:-2]
+            with Lock("coq"):
+                rc, out = sh(["coqchk", "-silent", "-o", "-Q", "theories", "VL", "-Q", "props", "VLP", "-Q", "gen", "VLG", lib],
+                             cwd=COQ, timeout=1800)
+            summary = out[out.find("CONTEXT SUMMARY"):] if "CONTEXT SUMMARY" in out else out[-800:]
+            want = ["* Axioms: <none>", "relying on type-in-type: <none>", "relying on unsafe (co)fixpoints: <none>",
+                    "positivity is assumed: <none>"]
+            good = rc == 0 and all(w in summary for w in want)
+            self.extra["coqchk"] = {"library": lib, "ok": good, "summary": " ".join(summary.split())[:600]}
+            self.checker_cmd += "; coqchk -silent -o %s" % lib
+            if not good:
+                self.proof_broken.append("coqchk does not accept %s with an empty axiom list: %s" % (lib, " ".join(summary.split())[:600]))
         return r["ok"]
 
     def finish(self):
